@@ -28,7 +28,7 @@ import (
 //   waiting                                      an announce is outstanding at the tracker
 //   idle status=<s>                              no announce outstanding, next one is more than 5 s away
 //   stuck status=<s>                             neither of the above for 3 s (announcer not going to announce)
-//   closed | no-call | not-started
+//   closed [has=<0|1>: HasAnnounced, read after Close as torrent.stop does] | no-call | not-started
 
 func init() {
 	register(&Suite{Name: "announcer", Gen: genAnnouncer, Exec: execAnnouncer})
@@ -252,7 +252,8 @@ func execAnnouncer(ops []string) []string {
 		case "close":
 			r.a.Close()
 			r.closed = true
-			obs = append(obs, "closed")
+			// HasAnnounced is what torrent.stop reads (after Close) to decide who gets the "stopped" event
+			obs = append(obs, "closed has="+b01(r.a.HasAnnounced))
 		default:
 			obs = append(obs, "bad-op")
 		}
